@@ -252,8 +252,40 @@ Proof.
   rewrite py_set_pc_pc. destruct (clear_temps (rg s)); reflexivity.
 Qed.
 
+(* PUSHU IL: the low byte of I (one byte pushed) *)
+Theorem pushu_IL : stack_is_spec (mk_instr 41 [ORegIL] 1) 41 (fun s => 1 <= getr s gU).
+Proof.
+  intros addr s Hwf HL HU. pose proof (getr_U_range s) as HR.
+  lift_mem.
+  match goal with |- context [run (fuel_for ?p ?s1) ?p 0 ?s1] =>
+    destruct (fuel_split p s1 4) as [j Hj]; [cbn; lia|]; rewrite Hj; set (S1 := s1) end.
+  assert (GU : getr S1 gU = getr s gU) by (subst S1; rewrite !getr_setr_pc by discriminate; reflexivity).
+  assert (GA : getr S1 gIL = getr s gIL) by (subst S1; rewrite !getr_setr_pc by discriminate; reflexivity).
+  assert (L1 : length (y_t (rg S1)) = NTEMP) by (subst S1; rewrite !setr_rg; destruct (rg s); exact HL).
+  set (U0 := getr s gU) in *.
+  replace (4 + j)%nat with (S (S (S (S j)))) by lia.
+  cbn [run nth_error exec_stmt eval_expr]. rewrite GU. cbn [nth_error].
+  set (u1 := setr S1 (gTEMP 1) U0).
+  assert (T1 : getr u1 (gTEMP 1) = U0) by (subst u1; apply getr_setr_T1; [exact L1 | lia]).
+  cbn [exec_stmt eval_expr eval_binop apply_flags]. rewrite T1. rewrite band3v. rewrite (Z.mod_small (U0 - Z.of_N 1) 16777216) by (change (Z.of_N 1) with 1; lia).
+  cbn [nth_error].
+  set (u2 := setr u1 gU (U0 - Z.of_N 1)).
+  assert (T2 : getr u2 (gTEMP 1) = U0) by (subst u2; rewrite getr_temp_setr_o by reflexivity; exact T1).
+  assert (A2 : getr u2 gIL = getr s gIL).
+  { rewrite <- GA. subst u2 u1. unfold getr. rewrite !setr_rg. destruct (rg S1); reflexivity. }
+  cbn [exec_stmt eval_expr eval_binop apply_flags]. rewrite T2, A2. rewrite band3v. rewrite (Z.mod_small (U0 - Z.of_N 1) 16777216) by (change (Z.of_N 1) with 1; lia).
+  cbn [nth_error].
+  eexists. eexists. split; [reflexivity|]. split; [spec_mem I_PUSHU; cbn [place_of]; reflexivity|].
+  unfold push_bytes, pwidth, width_of_place, rd_place. rewrite !getr_setr_pc by discriminate. fold U0.
+  change (Z.of_N 1) with 1. change (Z.to_N 1) with 1%N.
+  subst u2 u1 S1. unfold arch_eqT, store. change (N.to_nat 1) with 1%nat. cbn [wr_bytes]. unfold wr1; cbn [rg mem halted].
+  split; [|split]; [|intros z; reflexivity|reflexivity].
+  rewrite !setr_rg. cbn [rg]. rewrite !(clear_set_other _ gU) by reflexivity. rewrite clear_set_temp.
+  rewrite !(clear_set_other _ gPC) by reflexivity. rewrite py_set_pc_pc. reflexivity.
+Qed.
+
 Lemma stack_opcodes_check2 :
-  map (fun o => (d_cls (entry_of o), d_ops (entry_of o))) [42; 43; 44; 45; 58; 59; 60; 61]%N =
-  map (fun r => (I_PUSHU, [r])) [PReg RBA 2; PReg RI 2; PReg RX 3; PReg RY 3] ++
+  map (fun o => (d_cls (entry_of o), d_ops (entry_of o))) [41; 42; 43; 44; 45; 58; 59; 60; 61]%N =
+  map (fun r => (I_PUSHU, [r])) [PRegIL; PReg RBA 2; PReg RI 2; PReg RX 3; PReg RY 3] ++
   map (fun r => (I_POPU, [r])) [PReg RBA 2; PReg RI 2; PReg RX 3; PReg RY 3].
 Proof. vm_compute. reflexivity. Qed.
